@@ -543,6 +543,7 @@ def real_date_stream(ctx: Ctx, C, exe, cases):
     from numbers_parser import Document
     chunk = 1500
     n_mem_plain = 0
+    real_fail: dict = {}
     for k in range(0, len(cases), chunk):
         part = cases[k:k + chunk]
         doc = Document(num_rows=len(part), num_cols=1, num_header_rows=0, num_header_cols=0)
@@ -574,6 +575,23 @@ def real_date_stream(ctx: Ctx, C, exe, cases):
             reqs.append(f"fmt\t{cps(fmt)}\t{dt_req(t2)}")
             outs.append("!" + e if e else f"{cps(fv)}\t{nw}")
             rcases.append(("real", fmt, dt_fields(t), dt_fields(t2)))
+            # implementation-only oracle at the documented observation point: a blank separated list of directives
+            keys = fmt.split(" ")
+            if e is None and all(k in KEYS for k in keys):
+                toks = fv.split(" ")
+                ctx.count("oracle")
+                if len(toks) != len(keys):
+                    ctx.oracle_fail("real-format-concat", ["real", fmt, dt_fields(t)],
+                                    f"reopened formatted_value {fv!r} for format {fmt!r} at {t2!r}")
+                else:
+                    for k_, got in zip(keys, toks):
+                        exp = doc_render(k_, t2)
+                        if got != exp and not (k_ == "y" and t2.year >= 100 and got == str(t2.year)) \
+                                and not (k_ == "ww" and len(exp) == 1 and got == "0" + exp):
+                            if real_fail.get(k_, 0) < 3:
+                                real_fail[k_] = real_fail.get(k_, 0) + 1
+                                ctx.oracle_fail(f"directive-{k_}", ["field", k_, dt_fields(t2)],
+                                                f"reopened cell: directive {k_!r} at {t2!r} displayed {got!r}, documented {exp!r}")
             if abs((t2 - t).total_seconds()) > 1e-3:
                 ctx.notes.append(f"real path: stored {t!r} reopened as {t2!r} (value fidelity is C01's concern)")
         ctx.compare("real_validate", vcases, vreqs, vouts, exe, nontrivial=lambda c, o: o == "1")
@@ -813,7 +831,8 @@ def run_oracle(ctx, C, fcases, fmt_cases, dcases):
         res = guard(oracle_duration, C, *c)
         if res:
             ctx.oracle_fail(res[0], ["duration"] + list(c), res[1])
-    real_ctx.extra["oracle_failures_by_signature"] = per_sig
+    if per_sig:
+        real_ctx.notes.append("oracle failures by signature (all cases, before the per-signature cap): " + json.dumps(per_sig, sort_keys=True))
 
 
 def search(ctx: Ctx, broken) -> list:
